@@ -138,6 +138,15 @@ func c14Case(env *Env, tape *sim.Tape) *CaseOut {
 		kr = krRaw % (R + 1)
 		useBytes = false
 	}
+	if doc.MT == MTEarly && kr >= 0 {
+		// the early-returning stub legitimately never sees a failure beyond the bytes it needs
+		kr = -1
+		if fk == fkBoth {
+			fk = fkWrite
+		} else {
+			fk = fkNone
+		}
+	}
 	if entry == EReader && kw >= 0 {
 		// the wrapper's writer is its own pipe: no caller-supplied writer to fail
 		kw = -1
@@ -296,7 +305,7 @@ func c14Case(env *Env, tape *sim.Tape) *CaseOut {
 		if !ok {
 			var ss []string
 			for _, e := range es {
-				ss = append(ss, e.Error())
+				ss = append(ss, errText(e))
 			}
 			return fail("wrong-error", "the injected error fired but the call reported only: "+strings.Join(ss, " | "))
 		}
